@@ -51,68 +51,93 @@ theorem C01_date_inv (y m d : Int) (hy : 0 ≤ y) (hy2 : y < 2 ^ 31) (hm : 1 ≤
 /-! ## structure level -/
 
 /-- **Full statement** of C01 on the byte level: for every environment, every root and every
-representable message, encoding succeeds and decoding the bytes gives the message back. -/
+representable message (`valOk` is schema directed and general: flattened objects, exposed oneofs,
+anonymous proto oneofs are all covered by it; `Any` values are not `valOk`), encoding succeeds and
+decoding the bytes gives the message back. -/
 def C01_roundtrip_full : Prop :=
   ∀ (c : Cfg) (_ : OracleLaws c.O) (root : String) (m : Fields),
     (valOk c.env c.O (.object root) (.msg m) = true ∨ valOk c.env c.O (.oneof root) (.msg m) = true) →
     ∃ bs, encodeBytes c.env c.O root (.msg m) = .ok bs ∧ decodeBytes c root bs = .ok m
 
-/-- **Proved part (`_partial`)**: on the level of JSON trees, for every *simple* environment
-(`Env.simple`: one-element proto paths — no flattened objects, no exposed oneofs —, no `Any`, no
-anonymous proto oneof inside an object) and every representable message (`valOk`: sorted store,
-only schema fields, representable scalars, valid UTF-8, defined enum numbers, non-empty lists and
-maps with distinct keys, at most one oneof member, decimals in normal form): whatever tree the
-encoder writes, the decoder maps back to exactly the original message. Covers objects, wrapper
-oneofs (`!type` framing), enums, arrays and maps of scalars / enums / objects / oneofs, every
-scalar kind, recursion through named roots, presence (unset members stay unset).
+/-- **Proved part (`_partial`)**, on the level of JSON trees: for every *flat* environment
+(`Env.flat`: proto paths of any positive length — **flattened objects**, whose properties are
+inlined into the parent with the full path —, **exposed oneofs** (empty path), **anonymous proto
+oneofs** inside objects; no `Any`, no exposed oneof inlined from a flattened object) and every
+representable message
+(`valOk`: sorted store, only schema fields, representable scalars, valid UTF-8, defined enum
+numbers, non-empty lists and maps with distinct keys, at most one member per wrapper / exposed /
+proto oneof, decimals in normal form): whatever tree the encoder writes, the decoder maps back to
+exactly the original message. Covers objects, wrapper oneofs (`!type` framing), exposed oneofs
+(the oneof object is decoded into the *enclosing* message), anonymous proto oneofs (where the
+decoder's "second member" check 25c97b7 must not fire), enums, arrays and maps of scalars /
+enums / objects / oneofs, every scalar kind, recursion through named roots, presence (unset
+members stay unset), flattened sub-messages (created by the `Mutable` walk when the first leaf
+below them is decoded; the decoder's message after any subset of members is the restriction
+`restrictP` of the original message to the leaves read so far).
 
-Missing for the full statement: flattened objects, exposed oneofs, `Any`, anonymous proto
-oneofs. (The reader inverting the renderer is `C01_roundtrip_bytes_partial`, success of the
-encoder `C01_roundtrip_partial`, both below.) -/
-theorem C01_roundtrip_tree_partial (c : Cfg) (hs : c.env.simple = true) (L : OracleLaws c.O)
+Missing for the full statement: `Any`; an exposed oneof inlined from a flattened object. -/
+theorem C01_roundtrip_tree_partial (c : Cfg) (hs : c.env.flat = true) (L : OracleLaws c.O)
     (root : String) (m : Fields) (t : PTree)
     (hok : valOk c.env c.O (.object root) (.msg m) = true ∨
       valOk c.env c.O (.oneof root) (.msg m) = true)
-    (henc : encodeTree c.env c.O root (.msg m) = .ok t) : decRootTree c root t = .ok m :=
-  roundtrip_tree c hs L root m t hok henc
+    (henc : encodeTree c.env c.O root (.msg m) = .ok t) : decRootTree c root t = .ok m := by
+  obtain ⟨t', ht', hdec⟩ := roundtrip_tree_flat c hs L root m hok
+  rw [henc] at ht'; cases ht'; exact hdec
 
 /-- **Byte level (`_partial`)**: the same statement on the bytes `Codec.ProtoToJSON` returns and
 `Codec.JSONToProto` reads — through the string escaper / unquoter, the number scanner, the
 `Token()` state machine and the tree builder (`readDoc_render`). Same hypotheses. -/
-theorem C01_roundtrip_bytes_partial (c : Cfg) (hs : c.env.simple = true) (L : OracleLaws c.O)
+theorem C01_roundtrip_bytes_partial (c : Cfg) (hs : c.env.flat = true) (L : OracleLaws c.O)
     (root : String) (m : Fields) (bs : Bytes)
     (hok : valOk c.env c.O (.object root) (.msg m) = true ∨
       valOk c.env c.O (.oneof root) (.msg m) = true)
-    (henc : encodeBytes c.env c.O root (.msg m) = .ok bs) : decodeBytes c root bs = .ok m :=
-  roundtrip_bytes c hs L root m bs hok henc
+    (henc : encodeBytes c.env c.O root (.msg m) = .ok bs) : decodeBytes c root bs = .ok m := by
+  obtain ⟨bs', hbs', hdec⟩ := roundtrip_bytes c hs L root m hok
+  rw [henc] at hbs'; cases hbs'; exact hdec
 
-/-- **C01 for simple environments (`_partial` only in the class of schemas)**: encoding any
+/-- **C01 for flat environments (`_partial` only in the class of schemas)**: encoding any
 representable message succeeds, and decoding the bytes into a fresh message of the same type
 yields exactly the original message. Unbounded in message size, nesting depth, number of
 properties, string contents and integer values.
 
-Missing for `C01_roundtrip_full`: schemas with flattened objects, exposed oneofs, `Any` fields or
-anonymous proto oneofs inside objects (all modelled and validated against Go by the
-correspondence, not yet covered by this proof), and decimals that are not in `decimal.String()`
-normal form (they round-trip up to numeric equality: `C01_scalar_roundtrip`). -/
-theorem C01_roundtrip_partial (c : Cfg) (hs : c.env.simple = true) (L : OracleLaws c.O)
+Missing for `C01_roundtrip_full`: schemas with `Any` fields or an exposed oneof inlined from a
+flattened object (modelled and validated against Go by the correspondence, not yet covered by this
+proof), "an empty flattened sub-object is treated as absent" (`valOk` excludes empty flattened
+sub-messages; the Go-side oracle compares modulo them), and decimals that are
+not in `decimal.String()` normal form (they round-trip up to numeric equality:
+`C01_scalar_roundtrip`). -/
+theorem C01_roundtrip_partial (c : Cfg) (hs : c.env.flat = true) (L : OracleLaws c.O)
     (root : String) (m : Fields)
     (hok : valOk c.env c.O (.object root) (.msg m) = true ∨
       valOk c.env c.O (.oneof root) (.msg m) = true) :
-    ∃ bs, encodeBytes c.env c.O root (.msg m) = .ok bs ∧ decodeBytes c root bs = .ok m := by
-  obtain ⟨bs, hbs⟩ := encode_ok c.env c.O hs L root m hok
-  exact ⟨bs, hbs, roundtrip_bytes c hs L root m bs hok hbs⟩
+    ∃ bs, encodeBytes c.env c.O root (.msg m) = .ok bs ∧ decodeBytes c root bs = .ok m :=
+  roundtrip_bytes c hs L root m hok
+
+/-- encoding alone (first half of the statement) -/
+theorem C01_encode_succeeds_partial (c : Cfg) (hs : c.env.flat = true) (L : OracleLaws c.O)
+    (root : String) (m : Fields)
+    (hok : valOk c.env c.O (.object root) (.msg m) = true ∨
+      valOk c.env c.O (.oneof root) (.msg m) = true) :
+    ∃ bs, encodeBytes c.env c.O root (.msg m) = .ok bs :=
+  encode_ok c hs L root m hok
 
 /-! ## Non-vacuity -/
 
-/-- a simple environment with every supported construct: scalars of several kinds, an enum, a
-recursive object reference, an array of objects, maps, a wrapper oneof -/
+/-- a flat environment with every supported construct: scalars of several kinds, an enum, a
+recursive object reference, an array of objects, maps, a wrapper oneof, an **exposed oneof**
+(`kind`, members in fields 20 / 21 of the object itself), an **anonymous proto oneof** (fields
+30 / 31, ordinary optional properties that share proto oneof 1) and a **flattened object** (field
+40: its properties `fa`, `fb.x` … are inlined with paths `[40, 1]`, `[40, 2]`, and a second level
+`[40, 3, 1]`) -/
 def sampleEnv : Env :=
   { defs := [
       ("t.E", .enum (ascii "E_") [(ascii "UNSPECIFIED", 0), (ascii "A", 1), (ascii "B", 2)]),
       ("t.W", .oneof [
         { jsonName := ascii "s", path := [1], pres := .opt, field := .scalar .string, group := some 0 },
         { jsonName := ascii "o", path := [2], pres := .msg, field := .object "t.M", group := some 0 }]),
+      ("t.M_kind", .oneof [
+        { jsonName := ascii "num", path := [20], pres := .opt, field := .scalar .int32, group := some 0 },
+        { jsonName := ascii "sub", path := [21], pres := .msg, field := .object "t.M", group := some 0 }]),
       ("t.M", .object [
         { jsonName := ascii "name", path := [1], pres := .imp, field := .scalar .string },
         { jsonName := ascii "n", path := [2], pres := .opt, field := .scalar .int64 },
@@ -122,19 +147,35 @@ def sampleEnv : Env :=
         { jsonName := ascii "w", path := [6], pres := .msg, field := .oneof "t.W" },
         { jsonName := ascii "when", path := [7], pres := .msg, field := .scalar .date },
         { jsonName := ascii "raw", path := [8], pres := .imp, field := .scalar .bytes },
-        { jsonName := ascii "es", path := [9], pres := .list, field := .array (.enum "t.E") }])] }
+        { jsonName := ascii "es", path := [9], pres := .list, field := .array (.enum "t.E") },
+        { jsonName := ascii "kind", path := [], pres := .none, field := .oneof "t.M_kind" },
+        { jsonName := ascii "altA", path := [30], pres := .opt, field := .scalar .string, group := some 1 },
+        { jsonName := ascii "altB", path := [31], pres := .opt, field := .scalar .bool, group := some 1 },
+        { jsonName := ascii "fa", path := [40, 1], pres := .imp, field := .scalar .string },
+        { jsonName := ascii "fb", path := [40, 2], pres := .msg, field := .object "t.M" },
+        { jsonName := ascii "fc", path := [40, 3, 1], pres := .list, field := .array (.scalar .uint32) }])] }
 
 /-- a message using all of it (optional-with-zero-value `n`, nested message in an array, a oneof
-arm holding a message, a map with two keys) -/
+arm holding a message, a map with two keys, the exposed oneof's `sub` arm, one member of the
+anonymous proto oneof with its zero value) -/
 def sampleMsg : Fields :=
   [(1, .str (ascii "x")), (2, .int 0), (3, .enum 2),
-   (4, .list [.msg [(1, .str [0xC3, 0xA9])], .msg []]),
+   (4, .list [.msg [(1, .str [0xC3, 0xA9]), (20, .int 7)], .msg []]),
    (5, .map [(ascii "a", .str []), (ascii "b", .str (ascii "q\""))]),
    (6, .msg [(2, .msg [(2, .int (-5))])]),
-   (7, .date 33 1 2), (8, .bytes [0, 255]), (9, .list [.enum 1, .enum 0])]
+   (7, .date 33 1 2), (8, .bytes [0, 255]), (9, .list [.enum 1, .enum 0]),
+   (21, .msg [(31, .bool false)]), (30, .str []),
+   (40, .msg [(2, .msg [(40, .msg [(1, .str (ascii "deep"))])]), (3, .msg [(1, .list [.uint 1, .uint 2])])])]
 
-example : sampleEnv.simple = true := by decide
+example : sampleEnv.flat = true := by decide
 example : valOk sampleEnv toyOracle (.object "t.M") (.msg sampleMsg) = true := by decide
+/-- two members of the anonymous proto oneof, or of the exposed oneof, are not representable -/
+example : valOk sampleEnv toyOracle (.object "t.M") (.msg [(30, .str []), (31, .bool true)]) = false := by
+  decide
+example : valOk sampleEnv toyOracle (.object "t.M") (.msg [(20, .int 1), (21, .msg [])]) = false := by
+  decide
+/-- an empty flattened sub-message is not representable (C01 treats it as absent) -/
+example : valOk sampleEnv toyOracle (.object "t.M") (.msg [(40, .msg [])]) = false := by decide
 
 /-- the oracle laws are satisfiable -/
 example : OracleLaws toyOracle := toyOracle_laws
